@@ -94,13 +94,22 @@ theorem walk_wf (P : Pack) (M : CacheModel) : ∀ (fuel : Nat) (c : M.σ) (curso
         obtain ⟨h1, _, _⟩ := h
         subst h1; exact hacc
       · split at h
-        · simp at h
         · refine ih _ _ _ _ _ _ h ?_
           intro d hd
           simp only [List.mem_cons] at hd
           rcases hd with hd | hd
           · subst hd; rfl
           · exact hacc d hd
+        · split at h
+          · simp only [Outcome.ok.injEq, Prod.mk.injEq] at h
+            obtain ⟨h1, _, _⟩ := h
+            subst h1
+            intro d hd
+            simp only [List.mem_cons] at hd
+            rcases hd with hd | hd
+            · subst hd; rfl
+            · exact hacc d hd
+          · simp at h
 
 /-! ## the layout -/
 
@@ -282,6 +291,11 @@ theorem resolveDeltasVec_spec (P : Pack) (M : CacheModel) (K : CacheContract M) 
       simp only [WalkEnd.val] at hrep
       obtain ⟨d, c'', h1, h2, h3⟩ := finishChainVec_spec P M K c' off items first k bd v
         none bd out (Or.inr ⟨rfl, rfl⟩) hwf hne hrep hinv' ⟨fuel, hs⟩
+      exact ⟨d, c'', by simp only [resolveDeltasVec, hw, hl]; exact h1, h2, h3⟩
+    | external k bd =>
+      simp only [WalkEnd.val] at hrep
+      obtain ⟨d, c'', h1, h2, h3⟩ := finishChainVec_spec P M K c' off items first k bd v
+        (some bd.length) [] bd (Or.inl ⟨rfl, rfl, rfl⟩) hwf hne hrep hinv' ⟨fuel, hs⟩
       exact ⟨d, c'', by simp only [resolveDeltasVec, hw, hl]; exact h1, h2, h3⟩
 
 /-- `decode_entry` over the single output vector: for ANY previous content of the caller's vector the answer is
